@@ -1009,3 +1009,130 @@ Proof.
   destruct (endless_while_yields n endless_program [] s2 Off2) as (s' & E & Y).
   rewrite E. eexists. split; [reflexivity|]. rewrite Y. simpl. lia.
 Qed.
+
+(* ---------- C14.2  nothing_after_stop, on the interleaved platform log ---------- *)
+(* The state only counts yields; to speak about "after the raise" the calls the
+   platform sees are interleaved in a log: the Yielder calls (numbered), the
+   moment the flag goes up, and the effects.  [Run m s r s' l]: m, decomposed
+   into atoms (which by definition can neither yield nor see the flag), eval
+   prologues and binds, goes from s to (r, s') and the platform sees l. *)
+Inductive item := IYield (n : nat) | IRaise | IEffect (e : event).
+
+Inductive Run : forall {A : Type}, M A -> state -> res A -> state -> list item -> Prop :=
+| R_atom A (m : M A) s r s' d :
+    atom m -> m s = (r, s') -> st_trace s' = d ++ st_trace s -> Run m s r s' (map IEffect (rev d))
+| R_tick_refused s :
+    st_stopped s = true -> Run tick s (Er EStopped) s []
+| R_tick s r s' :
+    st_stopped s = false -> tick s = (r, s') ->
+    Run tick s r s' (IYield (st_yields s) :: if st_stopped s' then [IRaise] else [])
+| R_bind_ok A B (m : M A) (f : A -> M B) s a s1 l1 r s2 l2 :
+    Run m s (Ok a) s1 l1 -> Run (f a) s1 r s2 l2 -> Run (bindM m f) s r s2 (l1 ++ l2)
+| R_bind_er A B (m : M A) (f : A -> M B) s e s1 l1 :
+    Run m s (Er e) s1 l1 -> Run (bindM m f) s (Er e) s1 l1
+| R_ext A (m m' : M A) s r s' l :
+    (forall s, m s = m' s) -> Run m s r s' l -> Run m' s r s' l.
+
+Fixpoint effects (l : list item) : list event :=
+  match l with [] => [] | IEffect e :: t => e :: effects t | _ :: t => effects t end.
+Fixpoint yields_of (l : list item) : list nat :=
+  match l with [] => [] | IYield n :: t => n :: yields_of t | _ :: t => yields_of t end.
+
+Lemma effects_app a b : effects (a ++ b) = effects a ++ effects b.
+Proof. induction a as [|[]]; simpl; congruence. Qed.
+Lemma yields_of_app a b : yields_of (a ++ b) = yields_of a ++ yields_of b.
+Proof. induction a as [|[]]; simpl; congruence. Qed.
+Lemma effects_map d : effects (map IEffect d) = d.
+Proof. induction d; simpl; congruence. Qed.
+Lemma yields_of_map d : yields_of (map IEffect d) = [].
+Proof. induction d; simpl; congruence. Qed.
+Lemma no_raise_map d : ~ In IRaise (map IEffect d).
+Proof. induction d; simpl; [tauto|]. intros [?|?]; [discriminate|auto]. Qed.
+
+(* every run of a Built computation (so of every evaluator function) has a log *)
+Theorem run_exists A (m : M A) : Built m -> forall s r s', m s = (r, s') -> exists l, Run m s r s' l.
+Proof.
+  induction 1; intros s r s' E.
+  - destruct (H _ _ _ E) as (_ & (d & Hd) & _). eexists. eapply R_atom; eauto.
+  - destruct (st_stopped s) eqn:St.
+    + assert (tick s = (Er EStopped, s)) by (unfold tick; now rewrite St).
+      rewrite E in H. inversion H; subst. eexists. now apply R_tick_refused.
+    + eexists. now apply R_tick.
+  - unfold bindM in E. destruct (m s) as [[a|e] s1] eqn:E1.
+    + destruct (IHBuilt _ _ _ E1) as (l1 & R1). destruct (H1 a _ _ _ E) as (l2 & R2).
+      eexists. eapply R_bind_ok; eauto.
+    + inversion E; subst. destruct (IHBuilt _ _ _ E1) as (l1 & R1). eexists. eapply R_bind_er; eauto.
+  - rewrite <- H in E. destruct (IHBuilt _ _ _ E) as (l & R). eexists. eapply R_ext; eauto.
+Qed.
+
+(* the log is faithful: it is a log of THIS run; its effects are exactly the events
+   appended to the trace, in order; its yields are exactly the yields counted *)
+Theorem run_sound A (m : M A) s r s' l : Run m s r s' l ->
+  m s = (r, s') /\
+  st_trace s' = rev (effects l) ++ st_trace s /\
+  st_yields s <= st_yields s' /\
+  yields_of l = seq (st_yields s) (st_yields s' - st_yields s) /\
+  st_check_after_yield s' = st_check_after_yield s.
+Proof.
+  induction 1.
+  - destruct (H _ _ _ H0) as ((Y & _ & _ & C) & _).
+    rewrite effects_map, yields_of_map, rev_involutive, Y, Nat.sub_diag. auto 6.
+  - split; [unfold tick; now rewrite H|]. rewrite Nat.sub_diag. auto.
+  - split; [auto|].
+    assert (E : effects (if st_stopped s' then [IRaise] else []) = [] /\
+                yields_of (if st_stopped s' then [IRaise] else []) = []) by (destruct (st_stopped s'); auto).
+    destruct E as (E1 & E2). simpl. rewrite E1, E2.
+    unfold tick in H0. rewrite H in H0. destruct (_ && _); inversion H0; subst;
+      cbn [upd_yield st_yields st_trace st_check_after_yield app rev];
+      replace (S (st_yields s) - st_yields s) with 1 by lia; simpl; auto 6.
+  - destruct IHRun1 as (E1 & T1 & Y1 & L1 & C1), IHRun2 as (E2 & T2 & Y2 & L2 & C2).
+    split; [unfold bindM; now rewrite E1|].
+    rewrite effects_app, yields_of_app, rev_app_distr, <- app_assoc, <- T1, T2, L1, L2.
+    split; [auto|]. split; [lia|]. split; [|congruence].
+    replace (st_yields s2 - st_yields s) with ((st_yields s1 - st_yields s) + (st_yields s2 - st_yields s1)) by lia.
+    rewrite seq_app. do 2 f_equal. lia.
+  - destruct IHRun as (E1 & Rest). split; [unfold bindM; now rewrite E1|auto].
+  - destruct IHRun as (E1 & Rest). split; [now rewrite <- H|auto].
+Qed.
+
+(* with the corrected order of the stop test: in EVERY log of a run that starts with
+   the flag down, the raise (if any) is the last entry — no effect and no yield
+   follows it — and the run then ends with the "stopped" result *)
+Theorem run_nothing_after_raise A (m : M A) s r s' l : Run m s r s' l ->
+  st_check_after_yield s = true -> st_stopped s = false ->
+  (st_stopped s' = false /\ ~ In IRaise l)
+  \/ (st_stopped s' = true /\ r = Er EStopped /\ exists l0, l = l0 ++ [IRaise] /\ ~ In IRaise l0).
+Proof.
+  induction 1; intros Ck St.
+  - left. destruct (H _ _ _ H0) as ((_ & _ & S & _) & _). split; [congruence|apply no_raise_map].
+  - congruence.
+  - unfold tick in H0. rewrite H, Ck, andb_true_r in H0.
+    destruct (match st_stop_at s with Some k => Nat.eqb k (st_yields s) | None => false end);
+      inversion H0; subst; simpl.
+    + right. split; [auto|]. split; [auto|]. exists [IYield (st_yields s)]. split; [auto|].
+      simpl. intros [?|[]]. discriminate.
+    + left. split; [auto|]. simpl. intros [?|[]]. discriminate.
+  - destruct (IHRun1 Ck St) as [(S1 & N1) | (_ & Hr & _)]; [|discriminate].
+    assert (Ck1 : st_check_after_yield s1 = true).
+    { apply run_sound in H. destruct H as (_ & _ & _ & _ & C). congruence. }
+    destruct (IHRun2 Ck1 S1) as [(S2 & N2) | (S2 & Hr & l0 & -> & N0)].
+    + left. split; [auto|]. rewrite in_app_iff. tauto.
+    + right. split; [auto|]. split; [auto|]. exists (l1 ++ l0). split; [now rewrite app_assoc|].
+      rewrite in_app_iff. tauto.
+  - destruct (IHRun Ck St) as [?|(S1 & Hr & Rest)]; [auto|]. right. inversion Hr; subst. auto.
+  - auto.
+Qed.
+
+(* both together, for any Built computation / any evaluator function *)
+Corollary nothing_after_stop_log A (m : M A) : Built m ->
+  forall s r s', st_check_after_yield s = true -> st_stopped s = false -> m s = (r, s') ->
+  exists l, Run m s r s' l /\
+    st_trace s' = rev (effects l) ++ st_trace s /\
+    yields_of l = seq (st_yields s) (st_yields s' - st_yields s) /\
+    ((st_stopped s' = false /\ ~ In IRaise l)
+     \/ (st_stopped s' = true /\ r = Er EStopped /\ exists l0, l = l0 ++ [IRaise] /\ ~ In IRaise l0)).
+Proof.
+  intros Hb s r s' Ck St E. destruct (run_exists _ _ Hb _ _ _ E) as (l & R).
+  exists l. split; [auto|]. destruct (run_sound _ _ _ _ _ _ R) as (_ & T & _ & Y & _).
+  split; [auto|]. split; [auto|]. eapply run_nothing_after_raise; eauto.
+Qed.
